@@ -12,7 +12,7 @@ PROPS = {
     "C01": {
         "level": "exploration",
         "tests": [
-            {"name": "TestC01", "noasm": True, "quick": 4000, "thorough": 60000},
+            {"name": "TestC01", "noasm": True, "quick": 4000, "thorough": 150000},
             {"name": "TestC01Ex", "kind": "plain"},
             {"name": "TestBig", "kind": "plain", "levels": "one", "env": {"VERIF_BIG": "C01", "VERIF_HANG_SECONDS": "1200"}},
         ],
@@ -26,7 +26,7 @@ PROPS = {
     },
     "C09": {
         "level": "exploration",
-        "tests": [{"name": "TestC09", "noasm": True, "quick": 8000, "thorough": 120000}, {"name": "TestC09Ex", "kind": "plain"}],
+        "tests": [{"name": "TestC09", "noasm": True, "quick": 8000, "thorough": 240000}, {"name": "TestC09Ex", "kind": "plain"}],
         "rule": "cases = (data recipe, accelerated setting over flate/gzip/zlib incl. 4K window, Flush offsets, two Write partitions refining the same Flush offsets, zero-length writes) drawn by rapid; "
                 "oracle (metamorphic): both partitions emit byte-for-byte what one Write per Flush segment emits. Non-trivial = the two partitions differ and data is non-empty; distinct = case digest.",
         "assumptions": COMMON_ASSUME,
@@ -69,14 +69,14 @@ PROPS = {
     },
     "C19": {
         "level": "exploration",
-        "tests": [{"name": "TestC19", "noasm": True, "quick": 6000, "thorough": 100000}],
+        "tests": [{"name": "TestC19", "noasm": True, "quick": 6000, "thorough": 200000}],
         "rule": "cases = (data dominated by planted repeats at distances around 4096/32768/65536 separated by fresh random filler, periodic data with period just past a window, inputs > 64 KiB / > 128 KiB; 4K constructor at levels 1,2,-1,3..9 or ordinary constructor at 1,2,-1; Write/Flush partition) drawn by rapid; "
                 "oracle: maximum match distance in the reference inflater's trace <= 4096 (4K) / 32768, and the stream round-trips. Non-trivial = output contains a match with distance > window/2, or data > 64 KiB. Labels dist==w and no-match-at-all show the bound is approached from both sides.",
         "assumptions": COMMON_ASSUME,
     },
     "C20": {
         "level": "exploration",
-        "tests": [{"name": "TestC20", "noasm": True, "quick": 8000, "thorough": 120000}],
+        "tests": [{"name": "TestC20", "noasm": True, "quick": 8000, "thorough": 400000}],
         "rule": "cases = expansion mode (uniform, near-uniform, Fibonacci-skewed, all-distinct, alternating compressible/incompressible, mixed recipes; sizes around block thresholds; levels -2,-1,1,2; both windows; one or several Writes, one Close, no Flush) and periodic mode (period 1..64, n in {65536,65537,70000,131072,200000,max}; levels 1,2,-1); "
                 "oracle: len(out) <= n + n/32 + 256, resp. <= n/32 + 1200, and the output decodes to the input. Non-trivial = n >= 1. measurements report the worst observed fraction of each bound per setting.",
         "assumptions": COMMON_ASSUME,
@@ -127,7 +127,7 @@ PROPS = {
         "tests": [
             {"name": "TestC18", "quick": 16000, "thorough": 240000, "levels": "one", "shards": {"quick": 12, "thorough": 16}},
             {"name": "TestC18W", "quick": 2000, "thorough": 30000, "same_seed": True, "transcript": True, "shards": {"quick": 2, "thorough": 4}},
-            {"name": "TestC18Enc", "quick": 6000, "thorough": 80000, "shards": {"quick": 1, "thorough": 3}},
+            {"name": "TestC18Enc", "quick": 6000, "thorough": 200000, "shards": {"quick": 1, "thorough": 3}},
         ],
         "rule": "reader half (in one process, level switched at run time through the verif hook): inputs = valid streams, valid streams cut short, malformed streams with injected faults and >=600-byte tails, mutated streams, random bytes x Read sizes x source chunkings; for every runnable level a fresh Reader decodes the input; oracle: identical bytes and identical outcome kind (EOF / unexpected EOF / corrupt) across levels, and each run satisfies C03's reference-inflater oracle. "
                 "writer half (one process per level, same rapid seed): identical workload lists (data, flate/gzip/zlib setting, Write/Flush/Close ops, optional failing destination); each process checks what it emitted (flushed prefixes decode to the data so far, closed stream is a valid container) and records per-call error flags and decode digests; the driver requires the transcripts of all levels to be identical (compressed bytes are deliberately not compared). "
@@ -144,7 +144,7 @@ PROPS = {
     },
     "C06": {
         "level": "exploration",
-        "tests": [{"name": "TestC06", "quick": 4000, "thorough": 60000},
+        "tests": [{"name": "TestC06", "quick": 4000, "thorough": 200000},
                   {"name": "TestBig", "kind": "plain", "levels": "one", "env": {"VERIF_BIG": "C06", "VERIF_HANG_SECONDS": "1200"}}],
         "rule": "cases = (gzip | zlib) x direction (fastgo Writer -> standard Reader, standard Writer -> fastgo Reader, fastgo -> fastgo) x level in {-2,-1,0,1,2,3,6,9} x payload recipe x Write/Flush partition x gzip header (Latin-1 name/comment of 0..511 bytes, extra nil/empty/up to 65535 bytes, mtime 0 or any uint32, OS byte) or zlib dictionary x optional earlier use of the Writer followed by Reset x Read sizes x source (bytes.Reader or *bufio.Reader of 16..64Ki), drawn by rapid. "
                 "Plus gzip members longer than 4 GiB (length field wraps), produced and verified on the fly. Oracle: the reference container parser finds exactly one member whose payload is the data and whose trailer equals CRC-32/length (gzip) or Adler-32 (zlib) computed by the harness; fastgo's header bytes equal the standard library Writer's for the same header; the reading side returns the payload, equal header fields and io.EOF. "
@@ -154,7 +154,7 @@ PROPS = {
     "C07": {
         "level": "exploration",
         "tests": [
-            {"name": "TestC07", "quick": 8000, "thorough": 120000},
+            {"name": "TestC07", "quick": 8000, "thorough": 400000},
             {"name": "TestC07Ex", "kind": "plain"},
         ],
         "rule": "cases = well-formed container (gzip with 1-3 members or zlib; fastgo or standard encoder; payload mostly <= 4 KiB so corruption density is high) x corruption (1-3 bit flips / byte substitutions in the trailer, the header or anywhere) or truncation (drawn; every byte for fixed small containers, exhaustive) x Read sizes (destination pre-filled with a canary) x source (bytes.Reader, 16-byte or 4096-byte bufio). "
@@ -164,7 +164,7 @@ PROPS = {
     },
     "C08": {
         "level": "exploration",
-        "tests": [{"name": "TestC08", "quick": 4000, "thorough": 60000}],
+        "tests": [{"name": "TestC08", "quick": 4000, "thorough": 200000}],
         "rule": "cases = 1-6 gzip members (payloads incl. empty, levels, fastgo/standard encoders, header fields) written back to back, optional trailing non-gzip bytes, *bufio.Reader source of size 16..64Ki, Read sizes; mode A = default multistream, mode B = Multistream(false) + Reset on the same buffered source per member. "
                 "Oracle: A: concatenated payloads then io.EOF, Header of the first member, standard library agrees; B: each member's payload and header in order, after each member the bytes still obtainable from the source (buffered + underlying) are exactly what follows that member, trailing data untouched, Reset with nothing left returns io.EOF. Non-trivial = >= 2 members.",
         "assumptions": COMMON_ASSUME,
